@@ -73,11 +73,19 @@ class NB:
         kh = d(st.one_of(st.integers(1, 3), st.integers(1, 5), st.sampled_from([1, 3])))
         kw = d(st.one_of(st.integers(1, 3), st.integers(1, 5), st.sampled_from([1, 3])))
         sh, sw = (d(st.sampled_from([1, 1, 2, 3])), d(st.sampled_from([1, 1, 2, 3]))) if force_stride is None else force_stride
-        dil = d(st.sampled_from([1, 1, 1, 2])) if kind == "conv" and sh == sw == 1 else 1
+        if self.profile == "convs" and d(st.booleans()):
+            sh = sw = 1
+        if sh == sw == 1 and d(st.integers(0, 3 if self.profile != "convs" else 1)) == 0:
+            # dilation per axis, also beyond the hardware's native factor 2 (the compiler then dilates the kernel itself) and different on the two axes
+            dil_h, dil_w = d(st.sampled_from([1, 2, 2, 3, 4])), d(st.sampled_from([1, 2, 2, 3, 4]))
+            if kind != "conv" and max(dil_h, dil_w) > 2:
+                dil_h, dil_w = min(dil_h, 2), min(dil_w, 2)
+        else:
+            dil_h = dil_w = 1
         pad = d(st.sampled_from(["SAME", "VALID"])) if force_pad is None else force_pad
-        dkh, dkw = dil * (kh - 1) + 1, dil * (kw - 1) + 1
+        dkh, dkw = dil_h * (kh - 1) + 1, dil_w * (kw - 1) + 1
         if pad == "VALID" and (dkh > h or dkw > w):
-            kh, kw, dil = min(kh, h), min(kw, w), 1
+            kh, kw, dil_h, dil_w = min(kh, h), min(kw, w), 1, 1
             dkh, dkw = kh, kw
         if pad == "SAME":
             oh, ow = -(-h // sh), -(-w // sw)
@@ -111,7 +119,7 @@ class NB:
         bt = self.t("b", [oc], bdt, bs, [0] * oc if perch else 0, dict(seed=seed + 1, lo=-brange, hi=brange))
         oq = self.quant(dt)
         o = self.out(kind, [n, oh, ow, oc], dt, oq)
-        fields = dict(Padding=0 if pad == "SAME" else 1, StrideW=sw, StrideH=sh, FusedActivationFunction=ACT[self.act()], DilationWFactor=dil, DilationHFactor=dil)
+        fields = dict(Padding=0 if pad == "SAME" else 1, StrideW=sw, StrideH=sh, FusedActivationFunction=ACT[self.act()], DilationWFactor=dil_w, DilationHFactor=dil_h)
         if kind == "dw":
             fields["DepthMultiplier"] = oc // c
             self.op("DEPTHWISE_CONV_2D", [x, wt, bt], [o], "DepthwiseConv2DOptions", fields, version=3)
@@ -238,7 +246,7 @@ class NB:
         axis = d(st.sampled_from([len(shape) - 1, len(shape) - 1, 1 if len(shape) > 2 else len(shape) - 1, 2 if len(shape) > 3 else len(shape) - 1]))
         if other is not None and self.info(other)["shape"][:axis] + self.info(other)["shape"][axis + 1:] != shape[:axis] + shape[axis + 1:]:
             other = None
-        exact = self.profile in ("exact", "slices", "elementwise", "approx", "exact16")  # the int8 reference kernel demands identical quantisation; C01's exact class keeps to it
+        exact = self.profile in ("exact", "slices", "elementwise", "approx", "exact16", "convs")  # the int8 reference kernel demands identical quantisation; C01's exact class keeps to it
         if exact and other is not None and (self.info(other)["scale"], self.info(other)["zp"]) != (X["scale"], X["zp"]):
             other = None
         if other is None:
@@ -459,6 +467,9 @@ def network(profile="exact", max_ops=6, dtypes=("int8", "int8", "int8", "uint8",
         if profile == "exact16":  # exact-class operators whose 16-bit reference is pinned down (no ADD/SUB: their int16 reference depends on the pot_scale option)
             menu = ["conv", "conv", "conv", "dw", "fc", "maxpool", "avgpool_valid", "mul", "relu", "relu6", "reshape", "concat", "pad", "quantize", "sslice", "split",
                     "maximum", "minimum", "mul_const", "padconv"]
+        if profile == "convs":  # one or two convolution-type operators: kernel sizes, strides, per-axis dilations (also >2), paddings, depth multipliers
+            menu = ["conv", "conv", "conv", "dw", "padconv", "fc"]
+            n_ops = draw(st.integers(1, 2))
         if profile == "luts":  # many table-driven activations in one NPU subgraph: LUT slot allocation, eviction and re-use (tables repeat because quantisations repeat)
             menu = ["logistic", "tanh", "hswish", "lrelu", "logistic", "tanh", "hswish", "lrelu", "add_const", "relu", "conv", "softmax"]
             n_ops = draw(st.integers(4, max(max_ops, 4)))
